@@ -20,7 +20,8 @@ OpAction(op) ==
     CASE op.op = "create_main" ->
             /\ ctxs' = << [locale |-> MainLocale(op.enable, op.cookie, op.header), parent |-> 0] >>
             /\ views' = << [ctx |-> 1, depth |-> 0] >> /\ accs' = <<>> /\ hist' = <<op>>
-      [] op.op = "create_sub" -> CreateSub(op.parent, op.cookieOn, op.cookie, op.initial, op.header)
+      [] op.op = "create_sub" -> CreateSubVia(op.parent, op.cookieOn, op.cookie, op.initial, op.header, IF "via" \in DOMAIN op THEN op.via ELSE "init")
+      [] op.op = "lookup" -> Lookup(op.ctx)
       [] op.op = "set" -> SetLocale(op.view, op.locale, op.tracked)
       [] op.op = "scope" -> ScopeView(op.view)
       [] op.op = "make_accessor" -> MakeAccessor(op.view, op.key, op.flavour)
